@@ -91,6 +91,7 @@ func (vc *VC) unsound(s string) {
 }
 
 func (vc *VC) assume(st *State, t *Term) {
+	t = vc.P.Polarize(t, -1)
 	t = vc.P.Implies(st.pc, t)
 	if t.IsTrue() {
 		return
@@ -99,6 +100,7 @@ func (vc *VC) assume(st *State, t *Term) {
 }
 
 func (vc *VC) assumeGlobal(t *Term) {
+	t = vc.P.Polarize(t, -1)
 	if t.IsTrue() {
 		return
 	}
@@ -153,6 +155,7 @@ func (vc *VC) oblige(st *State, kind, label, text string, goal *Term, tags []str
 	if n := vc.counter(base); n > 0 {
 		name = fmt.Sprintf("%s~%d", base, n)
 	}
+	goal = vc.P.Polarize(goal, +1)
 	o := &Obligation{Name: name, Kind: kind, Func: vc.Key, Text: text, Tags: tags, Pos: vc.pos(pos), NHyps: len(vc.hyps), PC: st.pc, Goal: goal, Safety: safety}
 	vc.obls = append(vc.obls, o)
 	return o
